@@ -179,6 +179,8 @@ def st_k():
     def mk(n, di, u, hname, dkind, dlen, rnd, extra, retry):
         bs = gen.boundary_scalars(n) if n > 3 else [1]
         x = bs[di % len(bs)] if di >= 0 else 1 + u % (n - 1) if n > 2 else 1
+        if rnd % 5 == 0:
+            hname = gen.exact_hash_name(n, 4)      # hash output exactly as long as the order (in octets)
         if dkind == 4:
             # leftmost qlen bits equal to n-1, n or n+1 (the bits2octets reduction boundary)
             data = _boundary_digest(n, (rnd % 3) - 1, rnd % 2)
@@ -208,6 +210,8 @@ def st_sig(names):
                 payload = b"\x00"
             if not at and len(payload) > SU.olen(n):
                 payload = payload[: SU.olen(n)]
+        if u % 5 == 0:
+            hname = gen.exact_hash_name(n, 4)
         return {"kind": "sig", "curve": cname, "d": dd, "hash": hname, "entry": entry, "payload": payload.hex(),
                 "extra": extra.hex(), "at": at}
     return st.builds(mk, st.sampled_from(names), st.integers(-10, 60), st.integers(0, 1 << 600),
